@@ -6,19 +6,21 @@ ROOT="$(cd "$(dirname "$0")" && pwd)"
 D="$ROOT/seeded/$NAME"; mkdir -p "$D"
 cd "$WT" || exit 2
 DEMO=rspirv/tests/seeded_demo.rs
+T="$(mktemp -d /tmp/seeded_add.XXXXXX)"
+export CARGO_TARGET_DIR="$WT/target"
 [ -f "$DEMO" ] || { echo "no demo in $WT"; exit 2; }
 git diff > "$D/patch.diff"
 [ -s "$D/patch.diff" ] || { echo "empty diff"; exit 2; }
 cp "$DEMO" "$D/seeded_demo.rs"
 # 1. existing suite passes with the change (demo moved aside)
-mv "$DEMO" /tmp/seeded_demo_aside.rs
-if cargo test --workspace --offline > /tmp/seeded_suite.log 2>&1; then SUITE=pass; else SUITE=FAIL; fi
-mv /tmp/seeded_demo_aside.rs "$DEMO"
+mv "$DEMO" "$T/aside.rs"
+if cargo test --workspace --offline > "$T/suite.log" 2>&1; then SUITE=pass; else SUITE=FAIL; fi
+mv "$T/aside.rs" "$DEMO"
 # 2. demo fails with the change
-if cargo test --offline -p rspirv --test seeded_demo > /tmp/seeded_demo_with.log 2>&1; then WITH=pass; else WITH=fail; fi
+if cargo test --offline -p rspirv --test seeded_demo > "$T/with.log" 2>&1; then WITH=pass; else WITH=fail; fi
 # 3. demo passes without it
 git apply -R "$D/patch.diff"
-if cargo test --offline -p rspirv --test seeded_demo > /tmp/seeded_demo_without.log 2>&1; then WITHOUT=pass; else WITHOUT=fail; fi
+if cargo test --offline -p rspirv --test seeded_demo > "$T/without.log" 2>&1; then WITHOUT=pass; else WITHOUT=fail; fi
 git apply "$D/patch.diff"
 echo "suite=$SUITE demo_with_change=$WITH demo_without_change=$WITHOUT"
 python3 - "$P" "$NAME" "$NEEDS" "$SUITE" "$WITH" "$WITHOUT" "$D" <<'PY'
@@ -32,4 +34,6 @@ json.dump({
  "detected_by": "see DESIGN.md appendix / target/mutant-results.txt (./selftest_mutants.sh " + name + ")"
 }, open(d + "/meta.json", "w"), indent=1)
 PY
-[ "$SUITE" = pass ] && [ "$WITH" = fail ] && [ "$WITHOUT" = pass ]
+[ "$SUITE" = pass ] && [ "$WITH" = fail ] && [ "$WITHOUT" = pass ]; rc=$?
+[ $rc -eq 0 ] && rm -rf "$T" || echo "logs kept in $T"
+exit $rc
